@@ -673,7 +673,7 @@ def miri_race(ctx, vd, key, workload_seeds, many_seeds):
                                               "argv": ["race", "--seed", str(ws), "--threads", "3", "--ops", "3"]})
     vd.reports.append((key, {"scenario": "c07race", "evaluations": total, "distinct": total, "distinct_nontrivial": total,
                              "rule": "Miri: one evaluation = one (workload seed, Miri scheduler seed) execution of 3 real threads racing the process's first calls; each is distinct by construction of the seed pair",
-                             "counters": {"probe.miri_race_executions": total}, "samples": [{"config": key, "workload_seeds": list(workload_seeds), "miri_many_seeds": many_seeds}],
+                             "counters": {"probe.miri_race_executions": total, "fault.miri_scheduler_seeds": total}, "samples": [{"config": key, "workload_seeds": list(workload_seeds), "miri_many_seeds": many_seeds}],
                              "violation_count": 0, "wall_s": 0}))
 
 
